@@ -682,7 +682,22 @@ def h_dropzeros(case):
     return {'out': [BaseIpParser.drop_leading_zeros(t) for t in case['texts']]}
 
 
+def h_preprocess(case):
+    """QueryProcessor.preprocess on strings written in the stand-in alphabet of Preprocess.tla (I = U+0130, F = U+FF15)"""
+    from recognizers_text.utilities import QueryProcessor
+    out = []
+    for t, sens in case['items']:
+        real = t.replace('I', '\u0130').replace('F', '\uff15')
+        try:
+            r = QueryProcessor.preprocess(real, sens)
+            out.append(r.replace('\u0130', 'I').replace('i\u0307', 'i~'))
+        except Exception as ex:
+            out.append('!' + type(ex).__name__)
+    return {'out': out}
+
+
 _HANDLERS = {
+    'preprocess': h_preprocess,
     'dropzeros': h_dropzeros,
     'modpushpop': h_modpushpop,
     'cjkint': h_cjkint,
